@@ -12,7 +12,8 @@ API
     install()                       idempotent; adds the one process-wide audit hook (audit hooks can never
                                     be removed, so it is gated on the module-level `armed` observer and
                                     costs one attribute test per audit event when nothing is armed)
-    obs = Observer(write_roots, read_roots=(), read_files=(), probes=True, confine=None)
+    obs = Observer(write_roots, read_roots=(), read_files=(), probes=True, confine=None, resolved=False)
+                                    roots are passed through os.path.realpath unless resolved=True
                                     confine=<dir>: damage limitation for fuzzing code with known path
                                     escapes - a 'write' event whose realpath lies outside `confine` (and
                                     outside write_roots) is recorded with detail 'denied' and then refused
@@ -239,11 +240,12 @@ def is_under(real, roots):
 
 
 class Observer(object):
-    def __init__(self, write_roots, read_roots=(), read_files=(), probes=True, confine=None):
-        self.confine = os.path.realpath(confine) if confine else None
-        self.write_roots = [os.path.realpath(r) for r in write_roots]
-        self.read_roots = [os.path.realpath(r) for r in read_roots]
-        self.read_files = set(os.path.realpath(f) for f in read_files)
+    def __init__(self, write_roots, read_roots=(), read_files=(), probes=True, confine=None, resolved=False):
+        rp = (lambda p: p) if resolved else os.path.realpath   # resolved=True: caller passes realpaths
+        self.confine = rp(confine) if confine else None
+        self.write_roots = [rp(r) for r in write_roots]
+        self.read_roots = [rp(r) for r in read_roots]
+        self.read_files = set(rp(f) for f in read_files)
         self.probes = probes
         self.events = []
         self.counts = collections.Counter()
